@@ -54,7 +54,10 @@ def dump_arr(a, io, data='dense'):
              qdata=[[int(x) for x in row] for row in a._qdata], shapes=[list(b.shape) for b in a._data],
              dtype=a.dtype.kind)
     if data == 'dense':
-        d['dense'] = arr2(a.to_ndarray())
+        try:
+            d['dense'] = arr2(a.to_ndarray())
+        except Exception:   # blocks that do not fit the legs (reported by the oracle as `insane`)
+            d['dense'] = None
     elif data == 'codes':
         d['blocks'] = [[[code_of(x) for x in row] for row in b] for b in a._data]
     return d
@@ -681,7 +684,10 @@ def run_case(case, npc, ch, io):
         expected = expected_error(op, o, a, A)
         if expected is not None and 'always' in expected:
             orc.append(('c05.%s.missing-error' % op, str(expected)))
-        orc += oracle(op, o, a, A, res, npc)
+        try:
+            orc += oracle(op, o, a, A, res, npc)
+        except Exception as e:   # e.g. to_ndarray of a result whose blocks do not fit its legs
+            orc.append(('c05.%s.result-unusable' % op, type(e).__name__ + ': ' + str(e)[:200]))
     orc = classify(op, o, a, orc, calls)
     return {'in': inp, 'rec': recd, 'out': out, 'oracle': [list(x) for x in orc]}
 
@@ -692,7 +698,8 @@ def classify(op, o, a, orc, calls):
         return orc
     if op in ('qr', 'lq') and o['mode'] == 'complete' and o['cutoff'] is not None:
         return [('c05.%s.complete-with-cutoff' % op, '; '.join(x[0] for x in orc)[:300])]
-    if op == 'svd' and o.get('aslist') and o['qL'] is not None and o['qR'] is not None:
+    if op == 'svd' and o.get('aslist') and o['qL'] is not None and o['qR'] is not None \
+            and any('unexpected-error' in x[0] for x in orc):
         return [('c05.svd.qtotal_LR-as-lists', '; '.join(x[0] + ' ' + x[1] for x in orc)[:300])]
     if op == 'speigs':
         if not calls and any('TypeError' in x[0] for x in orc):
@@ -739,6 +746,9 @@ def expected_error(op, o, a, A):
             q = ci.make_valid(a.legs[0].to_qflat() * a.legs[0].qconj)
             if not any(np.all(row == sec) for row in q):
                 return ['ValueError', 'always']
+            # ARPACK itself may give up (e.g. "starting vector is zero" for a stored all-zero block): a failure of
+            # the trusted sparse solver to produce a result, not a wrong result
+            return ['ArpackError', 'ArpackNoConvergence']
         return None
     if op == 'ortho':
         if M < N:
